@@ -493,3 +493,25 @@ def inline_window_of_windowed_alias(r):
         if isinstance(s, LoopIR.WindowStmt) and s is not w and s.rhs.name == w.name:
             return True
     return False
+
+
+# ---------------------------------------------------------------------------
+# C17
+
+
+def callee_name_equals_variable_name(r):
+    """the printer never disambiguates a callee's name from variable names: a sub-procedure
+    named like a variable in scope at the call (extract_subproc(..., 'i')) prints `i(x, i)`"""
+    if r.get("kind") != "reparse_failed" or "expected called object to be a procedure" not in str(r.get("detail")):
+        return False
+    src = r.get("q_src") or ""
+    calls = set(re.findall(r"^\s*(\w+)\(", src, flags=re.M))
+    vars_ = set(re.findall(r"for (\w+) in", src)) | set(re.findall(r"^\s*(\w+)\s*:", src, flags=re.M)) | set(re.findall(r"[(,]\s*(\w+)\s*:", src))
+    return bool(calls & vars_)
+
+
+def set_memory_on_control_argument(r):
+    """set_memory accepts a size/index/bool argument; the result prints `n: size @ MEM`, which the parser rejects"""
+    if r.get("kind") != "reparse_failed" or "should not be annotated with memory" not in str(r.get("detail")):
+        return False
+    return bool(re.search(r":\s*(size|index|bool|stride)\s*@", r.get("q_src") or ""))
